@@ -44,6 +44,8 @@ pub enum G {
     Conda(Vec<Vec<G>>),
     Condu(Vec<Vec<G>>),
     Onceo(Vec<G>),
+    /// onceo with all its goals in ONE inner slice (`onceo { [g1, g2] }`); Onceo is the macro form `onceo { g1, g2 }` (one slice per goal)
+    OnceoFlat(Vec<G>),
 }
 
 impl G {
@@ -55,11 +57,12 @@ impl G {
             G::Conj(f, gs) => format!("and{}({})", f, gs.iter().map(|g| g.show()).collect::<Vec<_>>().join(",")),
             G::Disj(f, c) => format!("or{}({})", f, cl(c)), G::Conda(c) => format!("conda({})", cl(c)), G::Condu(c) => format!("condu({})", cl(c)),
             G::Onceo(gs) => format!("onceo({})", gs.iter().map(|g| g.show()).collect::<Vec<_>>().join(",")),
+            G::OnceoFlat(gs) => format!("onceoflat({})", gs.iter().map(|g| g.show()).collect::<Vec<_>>().join(",")),
         }
     }
     fn bfs_only(&self) -> bool {
         match self {
-            G::Conda(_) | G::Condu(_) | G::Onceo(_) => true,
+            G::Conda(_) | G::Condu(_) | G::Onceo(_) | G::OnceoFlat(_) => true,
             G::Conj(_, gs) => gs.iter().any(|g| g.bfs_only()),
             G::Disj(_, c) => c.iter().any(|x| x.iter().any(|g| g.bfs_only())),
             _ => false,
@@ -116,7 +119,7 @@ fn sem(g: &G, s: &Sub) -> Vec<Sub> {
         G::Disj(_, cs) => cs.iter().flat_map(|c| sem_conj(c, s)).collect(),
         G::Conda(cs) => { for c in cs { if c.is_empty() { continue; } let h = sem(&c[0], s); if !h.is_empty() { return h.iter().flat_map(|a| sem_conj(&c[1..].to_vec(), a)).collect(); } } vec![] }
         G::Condu(cs) => { for c in cs { if c.is_empty() { continue; } let h = sem(&c[0], s); if !h.is_empty() { return sem_conj(&c[1..].to_vec(), &h[0]); } } vec![] }
-        G::Onceo(gs) => sem_conj(gs, s).into_iter().take(1).collect(),
+        G::Onceo(gs) | G::OnceoFlat(gs) => sem_conj(gs, s).into_iter().take(1).collect(),
     }
 }
 fn sem_conj(gs: &[G], s: &Sub) -> Vec<Sub> {
@@ -130,7 +133,7 @@ fn ambiguous(g: &G, s: &Sub) -> bool {
     let distinct = |v: &Vec<Sub>| { let mut d = v.clone(); d.sort(); d.dedup(); d.len() };
     match g {
         G::Condu(cs) => { for c in cs { if c.is_empty() { continue; } if ambiguous(&c[0], s) { return true; } let h = sem(&c[0], s); if !h.is_empty() { return distinct(&h) > 1 || amb_conj(&c[1..], &h[0]); } } false }
-        G::Onceo(gs) => distinct(&sem_conj(gs, s)) > 1 || amb_conj(gs, s),
+        G::Onceo(gs) | G::OnceoFlat(gs) => distinct(&sem_conj(gs, s)) > 1 || amb_conj(gs, s),
         G::Conj(_, gs) => amb_conj(gs, s),
         G::Disj(_, cs) => cs.iter().any(|c| amb_conj(c, s)),
         G::Conda(cs) => { for c in cs { if c.is_empty() { continue; } if ambiguous(&c[0], s) { return true; } let h = sem(&c[0], s); if !h.is_empty() { return h.iter().any(|a| amb_conj(&c[1..], a)); } } false }
@@ -161,7 +164,8 @@ fn build_bfs(g: &G, vars: &[T]) -> Goal<U, E> {
             match form { 0 => Conde::from_conjunctions(&refs).cast_into(), _ => Disj::from_conjunctions(&refs) } }
         G::Conda(cs) => { let vs: Vec<Vec<Goal<U, E>>> = cs.iter().map(|c| sub(c)).collect(); let refs: Vec<&[Goal<U, E>]> = vs.iter().map(|v| &v[..]).collect(); conda(OperatorParam::new(&refs)) }
         G::Condu(cs) => { let vs: Vec<Vec<Goal<U, E>>> = cs.iter().map(|c| sub(c)).collect(); let refs: Vec<&[Goal<U, E>]> = vs.iter().map(|v| &v[..]).collect(); condu(OperatorParam::new(&refs)) }
-        G::Onceo(gs) => { let v = sub(gs); let refs: Vec<&[Goal<U, E>]> = vec![&v[..]]; onceo(OperatorParam::new(&refs)) }
+        G::OnceoFlat(gs) => { let v = sub(gs); let refs: Vec<&[Goal<U, E>]> = vec![&v[..]]; onceo(OperatorParam::new(&refs)) }
+        G::Onceo(gs) => { let v = sub(gs); let refs: Vec<&[Goal<U, E>]> = v.iter().map(|g| std::slice::from_ref(g)).collect(); onceo(OperatorParam::new(&refs)) }
     }
 }
 fn build_dfs(g: &G, vars: &[T]) -> DFSGoal<U, E> {
@@ -266,7 +270,7 @@ fn gen(r: &mut Rng, depth: usize, bfs: bool) -> G {
         5 => leaf(r),
         6 => { let k = 1 + r.below(3); G::Conda((0..k).map(|_| { let m = 1 + r.below(3); (0..m).map(|_| gen(r, depth - 1, bfs)).collect() }).collect()) }
         7 => { let k = 1 + r.below(3); G::Condu((0..k).map(|_| { let m = 1 + r.below(3); (0..m).map(|_| gen(r, depth - 1, bfs)).collect() }).collect()) }
-        _ => { let k = 1 + r.below(3); G::Onceo((0..k).map(|_| gen(r, depth - 1, bfs)).collect()) }
+        _ => { let k = 1 + r.below(3); let gs: Vec<G> = (0..k).map(|_| gen(r, depth - 1, bfs)).collect(); if r.below(3) == 0 { G::OnceoFlat(gs) } else { G::Onceo(gs) } }
     }
 }
 
@@ -351,6 +355,10 @@ pub fn search(tier: &str, seed: u64, _only: Option<&str>) {
     check(&mut rep, &G::Condu(vec![vec![G::Eq(0, 1), G::Onceo(vec![choice(1)]), G::Eq(1, 2)]]));
     check(&mut rep, &G::Condu(vec![vec![G::Eq(0, 1), choice(1), G::Eq(2, 2)], vec![G::Eq(0, 3)]]));
     check(&mut rep, &G::Onceo(vec![G::Eq(0, 1), choice(1)]));
+    check(&mut rep, &G::OnceoFlat(vec![G::Eq(0, 1), choice(1)]));
+    check(&mut rep, &G::Onceo(vec![choice(0), G::Eq(0, 2)]));
+    check(&mut rep, &G::OnceoFlat(vec![choice(0), G::Eq(0, 2)]));
+    check(&mut rep, &G::Onceo(vec![choice(0), choice(1)]));
     check(&mut rep, &G::Onceo(vec![G::Eq(0, 2), G::Eq(0, 2), G::Eq(1, 1)]));
     let mut r = Rng(0x9E3779B97F4A7C15 ^ (seed.wrapping_mul(0x2545F4914F6CDD1D)) | 1);
     for i in 0..n {
@@ -390,6 +398,7 @@ impl<'a> P<'a> {
             "conda" => { self.eat(b'('); G::Conda(self.clauses()) }
             "condu" => { self.eat(b'('); G::Condu(self.clauses()) }
             "onceo" => { self.eat(b'('); G::Onceo(self.list(b')')) }
+            "onceoflat" => { self.eat(b'('); G::OnceoFlat(self.list(b')')) }
             _ => G::Fail,
         }
     }
